@@ -122,8 +122,9 @@ def run(rep, tier, seed, proof_ok):
         jobs.append({"store": "memory", "cap": cap, "ops": s})
         jobs.append({"store": "memory", "cap": "bare", "ops": s})
         if i % 6 == 0:
-            jobs.append({"store": "local", "cap": cap, "ops": s})
-            jobs.append({"store": "local", "cap": "bare", "ops": s})
+            # the local store returns a fresh object per fetch: the number of fetched objects still alive is measured too
+            jobs.append({"store": "local", "cap": cap, "ops": s, "track_alive": True})
+            jobs.append({"store": "local", "cap": "bare", "ops": s, "track_alive": True})
     decode_args = ["none", "false", "true", 0, -1, -7, 1, 3, 25]
     out = C.run_driver("drive_store.py", {"seqs": jobs, "decode": decode_args})
     res = out["seqs"]
@@ -159,6 +160,9 @@ def run(rep, tier, seed, proof_ok):
         # bound on the real code
         if w["cap"] != "unbounded" and any(n > w["cap"] for n in rw["lens"]):
             rep.violation("unbounded-cache", f"cache holds more than {w['cap']} objects", {"store": w["store"], "cap": w["cap"], "ops": ops, "lens": rw["lens"]})
+        if w["cap"] != "unbounded" and any(n > w["cap"] for n in rw.get("alive", [])):
+            rep.violation("unbounded-cache:objects-alive", f"more than {w['cap']} fetched objects are kept alive by the cache-wrapped store (weak references)",
+                          {"store": w["store"], "cap": w["cap"], "ops": ops, "alive": rw["alive"]})
         for n in rw["lens"]:
             lens_hist[n] = lens_hist.get(n, 0) + 1
         # model vs implementation (memory)
